@@ -25,6 +25,10 @@ fn main() {
                 regress::verif_top::find_from_json(&cps(f[3]), f[1], f[2] == "1", &hay, f[4].parse().unwrap())
             }
             "prop" => regress::verif_top::prop_table_json(f[1], f[2]),
+            "findp" | "findpa" => {
+                let hay: String = cps(f[5]).into_iter().map(|c| char::from_u32(c).unwrap()).collect();
+                regress::verif_top::find_from_pike_json(&cps(f[3]), f[1], f[2] == "1", &hay, f[4].parse().unwrap(), f[0] == "findpa")
+            }
             "finda" => {
                 let hay: String = cps(f[5]).into_iter().map(|c| char::from_u32(c).unwrap()).collect();
                 regress::verif_top::find_from_ascii_json(&cps(f[3]), f[1], f[2] == "1", &hay, f[4].parse().unwrap())
